@@ -1,0 +1,17 @@
+//go:build verif
+
+// Verification hook (add-only, compiled only with -tags verif): re-exports the
+// unexported helpers of this package for the /verif correspondence harness.
+package consistenthash
+
+import "hash"
+
+// VerifHashFromString re-exports hashFromString.
+func VerifHashFromString(s string, h hash.Hash, seed []byte) (int, error) {
+	return hashFromString(s, h, seed)
+}
+
+// VerifPermutation re-exports (*ConsistentHash).permutation.
+func (ch *ConsistentHash) VerifPermutation(name string) ([]int, error) {
+	return ch.permutation(name)
+}
